@@ -125,13 +125,13 @@ func worker(jobsPath string, from int, dir, tag, logPath, stdoutPath string) {
 		outOff = st.Size()
 	}
 	current := make(chan int, 1)
-	go func() { // watchdog: one job may not take longer than 20 s
+	go func() { // watchdog: one job may not take longer than 8 s
 		id := -1
 		t := time.NewTimer(time.Hour)
 		for {
 			select {
 			case id = <-current:
-				t.Reset(20 * time.Second)
+				t.Reset(8 * time.Second)
 			case <-t.C:
 				fmt.Fprintf(logf, "H %d\n", id)
 				os.Exit(97)
@@ -238,6 +238,7 @@ func runJobs(root string, jobs []Job, tag string, stats map[string]int) map[int]
 		idx[j.ID] = i
 	}
 	from := 0
+	hangs := map[string]int{}
 	for from < len(jobs) {
 		os.Remove(logPath)
 		so, _ := os.Create(stdoutPath)
@@ -316,6 +317,18 @@ func runJobs(root string, jobs []Job, tag string, stats map[string]int) map[int]
 		res[began] = JobResult{Effects: o.String(), Class: class, Detail: string(det)}
 		can.Install()
 		from = idx[began] + 1
+		if class == "hang" {
+			// an entry that hangs twice is not called again in this configuration
+			k := jobs[idx[began]].Cfg + "\x00" + jobs[idx[began]].Entry
+			hangs[k]++
+			if hangs[k] >= 2 {
+				for from < len(jobs) && jobs[from].Cfg+"\x00"+jobs[from].Entry == k {
+					res[jobs[from].ID] = JobResult{Effects: "-", Class: "skipped-after-hang"}
+					stats["skipped_after_hang"]++
+					from++
+				}
+			}
+		}
 	}
 	return res
 }
